@@ -263,7 +263,7 @@ void gen_neighbours(const uint8_t* x, size_t n, bool full256, gen_bytes_cb cb, v
   (void)v;
   struct vh_buf b = {0};
   /* truncations */
-  if (n <= 600) {
+  if (n <= 256) {
     for (size_t k = 0; k < n; k++) cb(x, k, ud);
   } else {
     for (size_t i = 0; i < hs.n; i++) {
@@ -276,7 +276,8 @@ void gen_neighbours(const uint8_t* x, size_t n, bool full256, gen_bytes_cb cb, v
                                  0x7f, 0x80, 0x81, 0x98, 0x9b, 0x9d, 0x9f, 0xa0, 0xa1, 0xb8, 0xbe, 0xbf, 0xc0, 0xd8, 0xdb, 0xdc, 0xdf, 0xe0, 0xf3, 0xf4, 0xf5,
                                  0xf6, 0xf7, 0xf8, 0xf9, 0xfa, 0xfb, 0xfc, 0xff};
   size_t hlimit = hs.n;
-  if (hlimit > 200) hlimit = 200;
+  size_t hcap = full256 ? 48 : 120; /* cost per item is heads x edits x item length: bounded for big items */
+  if (hlimit > hcap) hlimit = hcap;
   for (size_t i = 0; i < hlimit; i++) {
     size_t s = hs.start[i], e = hs.end[i];
     uint8_t ib = hs.ib[i];
